@@ -55,8 +55,24 @@ func execAbsoluteLocationPathWithRelative(context *exprContext, expr *grammar.Gr
 	return execChildren(context, expr)
 }
 
+func (c *exprContext) isPrincipalNode(n node.Node) bool {
+	_, isAttribute := n.(node.Attribute)
+	_, isNamespace := n.(node.Namespace)
+
+	switch c.principal {
+	case principalAttribute:
+		return isAttribute
+	case principalNamespace:
+		return isNamespace
+	}
+
+	_, isNamed := n.(node.NamedNode)
+	return isNamed && !isAttribute && !isNamespace
+}
+
 func execStep(context *exprContext, expr *grammar.Grammar) error {
 	var nextBsr *bsr.BSR
+	context.principal = principalElement
 
 	for _, cn := range expr.BSR.GetAllNTChildren() {
 		for _, c := range cn {
@@ -261,11 +277,7 @@ func execNameTestAnyElement(context *exprContext, expr *grammar.Grammar) error {
 	result := make(NodeSet, 0)
 
 	for _, i := range nodeSet {
-		if _, ok := i.Node().(node.NamedNode); ok {
-			result = append(result, i)
-		}
-
-		if _, ok := i.Node().(node.Namespace); ok {
+		if context.isPrincipalNode(i.Node()) {
 			result = append(result, i)
 		}
 	}
@@ -309,7 +321,7 @@ func nameTestNamespaceAnyLocal(namespaceLookup string, context *exprContext, exp
 	result := make(NodeSet, 0)
 
 	for _, i := range nodeSet {
-		if node, ok := i.Node().(node.NamedNode); ok {
+		if node, ok := i.Node().(node.NamedNode); ok && context.isPrincipalNode(i.Node()) {
 			if node.Space() == namespaceValue {
 				result = append(result, i)
 			}
@@ -350,7 +362,7 @@ func nameTestLocalAnyNamespace(localValue string, context *exprContext, expr *gr
 	result := make(NodeSet, 0)
 
 	for _, i := range nodeSet {
-		if node, ok := i.Node().(node.NamedNode); ok {
+		if node, ok := i.Node().(node.NamedNode); ok && context.isPrincipalNode(i.Node()) {
 			if node.Local() == localValue {
 				result = append(result, i)
 			}
@@ -429,7 +441,7 @@ func nameTestQNameNamespaceWithLocal(namespaceLookup, local string, context *exp
 	result := make(NodeSet, 0)
 
 	for _, i := range nodeSet {
-		if node, ok := i.Node().(node.NamedNode); ok {
+		if node, ok := i.Node().(node.NamedNode); ok && context.isPrincipalNode(i.Node()) {
 			if node.Local() == local && node.Space() == namespaceValue {
 				result = append(result, i)
 			}
@@ -451,13 +463,13 @@ func execNameTestQNameLocalOnly(context *exprContext, expr *grammar.Grammar) err
 	queryName := expr.GetString()
 
 	for _, child := range nodeSet {
-		if elem, ok := child.Node().(node.NamedNode); ok {
+		if elem, ok := child.Node().(node.NamedNode); ok && context.isPrincipalNode(child.Node()) {
 			if elem.Space() == "" && elem.Local() == queryName {
 				nextResult = append(nextResult, child)
 			}
 		}
 
-		if ns, ok := child.Node().(node.Namespace); ok {
+		if ns, ok := child.Node().(node.Namespace); ok && context.principal == principalNamespace {
 			namespaceValue := context.NamespaceDecls[queryName]
 
 			if ns.NamespaceValue() == namespaceValue {
@@ -485,6 +497,7 @@ func execAxisName(context *exprContext, expr *grammar.Grammar) error {
 	case "child":
 		result = selectChild(nodeSet)
 	case "attribute":
+		context.principal = principalAttribute
 		result = selectAttributes(nodeSet)
 	case "ancestor":
 		result = selectAncestor(nodeSet)
@@ -499,6 +512,7 @@ func execAxisName(context *exprContext, expr *grammar.Grammar) error {
 	case "following-sibling":
 		result = selectFollowingSibling(nodeSet)
 	case "namespace":
+		context.principal = principalNamespace
 		result = selectNamespace(nodeSet)
 	case "parent":
 		result = selectParent(nodeSet)
@@ -533,6 +547,7 @@ func execAbbreviatedAxisSpecifier(context *exprContext, expr *grammar.Grammar) e
 		return errQueryNonNodeset
 	}
 
+	context.principal = principalAttribute
 	context.result = selectAttributes(nodeSet)
 	return nil
 }
